@@ -3102,3 +3102,428 @@ def r19b(cx):
 
 RS.explanation += (' Every kind test of the simulated path walk lets a Directory through and no other FileBody variant, a trailing `/` '
                    'or `/.` included, and the trailing test cannot be bypassed (R19b).')
+
+
+# ---------------------------------------------------------------------------------------
+# added for the independent seeds C19-a (RealSystem::write repeated the write after a short write and lost the count when the
+# next one failed) and C19-b (the simulated open_fd_ge answered EMFILE when the NUMBER of open descriptors reached RLIMIT_NOFILE)
+REAL_MOD = 'yash_env::system::real'
+# the system calls of the wiring tables (R3) plus the two of the real directory stream; sigemptyset only fills a struct
+_SYSCALLS = ({r[0] for rows in list(REAL_WIRING.values()) + list(HELPER_WIRING.values()) for r in rows} | {'readdir', 'closedir'}) - {'sigemptyset'}
+_IS_NULL = re.compile(r'^core::ptr::(const_ptr|mut_ptr)::<impl \*(const|mut) T>::is_null$')
+_ERRNO_LAST = re.compile(r'(^|::)(<impl )?' + re.escape(ERRNO) + r'>?::last$')
+
+
+def _rshort(k):
+    m = re.match(r'^<(.+?) as (.+?)>::(.*)$', k)
+    return '%s::%s' % (last(re.sub(r'<.*$', '', m.group(2))), m.group(3)) if m else '::'.join(k.split('::')[-2:])
+
+
+def _mir_callee(t):
+    return (t['f'].get('def') or t['f'].get('decl') or '')
+
+
+def _ref_origin(du, operand, depth=8):
+    """Origin of an operand looked at through references and plain copies (`&Err(EINTR)` -> the aggregate)."""
+    org = du.origin(operand)
+    while depth:
+        depth -= 1
+        if org['k'] in ('ref', 'place') and all(e == '*' for e in (org['pl'].get('p') or [])):
+            nxt = du.origin_place({'l': org['pl']['l']})
+            if nxt['k'] == 'place' and nxt['pl'] == {'l': org['pl']['l']}:
+                return nxt
+            org = nxt
+            continue
+        return org
+    return org
+
+
+def _real_syscall_graph(F):
+    """(bodies of the real module, family methods, {body: [(block, call, what)]}): `what` names the system call a call site performs -
+    a libc function of the table, a helper function of the real module (not itself a method of the family: those are sites of
+    their own) that performs one, or a closure that performs one handed to some call."""
+    bodies = {k: b for k, b in F.bodies.items() if REAL_MOD in k and '::tests' not in k and '::tests' not in b.root}
+    family = {it['def'] for i in F.impls if i.get('self_adt') == REAL and (i.get('trait_def') or '').startswith(SYS)
+              for it in i['items'] if it['kind'] == 'Fn'}
+    direct = {}
+    for k, b in bodies.items():
+        direct[k] = [(blk, t, 'libc::' + last(_mir_callee(t))) for blk, t in b.calls()
+                     if is_libc(_mir_callee(t)) and last(_mir_callee(t)) in _SYSCALLS]
+    makes = {k for k in bodies if direct[k]}
+    dus = {}
+    sites = {}
+    changed = True
+    while changed:
+        changed = False
+        for k, b in bodies.items():
+            if k not in dus:
+                dus[k] = Q.DefUse(b)
+            du = dus[k]
+            out = list(direct[k])
+            for blk, t in b.calls():
+                d = _mir_callee(t)
+                if d in makes and d not in family and d != k:
+                    out.append((blk, t, 'helper ' + _rshort(d)))
+                    continue
+                for a in t['a']:
+                    if Q.operand_place(a) is None:
+                        continue
+                    org = _ref_origin(du, a)
+                    if org['k'] == 'agg' and org['rv'].get('ak') == 'closure' and org['rv'].get('def') in makes:
+                        out.append((blk, t, 'closure ' + _rshort(org['rv']['def'])))
+                        break
+            sites[k] = out
+            if out and k not in makes:
+                makes.add(k)
+                changed = True
+    return bodies, family, sites, dus
+
+
+def _failure_edges(F, body, du, dest):
+    """Switch edges that are taken only when the call that wrote `dest` FAILED: the Err / Break side of a Result computed from its
+    value, the side of `x == Err(..)` / `errno == Errno::X` on which the equality holds (x computed from the value, errno read
+    by Errno::last()), and the null side of an is_null() test of the value."""
+    T = Q.forward_taint(body, {dest})
+
+    def base_tainted(operand):
+        p = Q.operand_place(operand)
+        if p is None:
+            return False
+        if p['l'] in T:
+            return True
+        org = _ref_origin(du, operand)
+        return org['k'] in ('place', 'ref') and org['pl']['l'] in T
+
+    def failure_value(operand):
+        if Q.operand_place(operand) is None:
+            return str(operand.get('cdef') or '').startswith(ERRNO + '::')
+        org = _ref_origin(du, operand)
+        if org['k'] == 'agg':
+            return org['rv'].get('adt') == 'core::result::Result' and org['rv'].get('variant') == 'Err'
+        return org['k'] == 'const' and str(org['o'].get('cdef') or '').startswith(ERRNO + '::')
+
+    def errno_read(operand):
+        if Q.operand_place(operand) is None:
+            return False
+        org = _ref_origin(du, operand)
+        return org['k'] == 'call' and bool(_ERRNO_LAST.search(_mir_callee(org['t'])))
+
+    def fails(org, lab):
+        org, lab = Q.peel_not(du, org, lab)
+        if not lab:
+            return False
+        if org['k'] == 'discr':
+            ty = re.sub(r'<.*$', '', (org.get('ty') or '').lstrip('&').strip())
+            return lab[0] == 'variant' and lab[1] in ('Err', 'Break') and org['pl']['l'] in T and \
+                ty in ('core::result::Result', 'core::ops::control_flow::ControlFlow')
+        if lab[0] != 'bool':
+            return False
+        ops = ne = None
+        if org['k'] == 'call':
+            name = _mir_callee(org['t'])
+            if _IS_NULL.match(name) and org['t']['a']:
+                return lab[1] is True and base_tainted(org['t']['a'][0])
+            if _CMP_EQ.search(name) and len(org['t']['a']) == 2:
+                ops, ne = org['t']['a'], name.endswith('::ne')
+            elif _CMP_EQ.search(str(org['t']['f'].get('decl') or '')) and len(org['t']['a']) == 2:
+                ops, ne = org['t']['a'], str(org['t']['f']['decl']).endswith('::ne')
+        elif org['k'] == 'binop' and org['rv']['op'] in ('Eq', 'Ne'):
+            ops, ne = [org['rv']['a'], org['rv']['b']], org['rv']['op'] == 'Ne'
+        if ops is None or lab[1] == ne:       # the edge on which the two are different
+            return False
+        a, b = ops
+        return (failure_value(a) and (base_tainted(b) or errno_read(b))) or (failure_value(b) and (base_tainted(a) or errno_read(a)))
+
+    out = set()
+    for u in sorted(body.live_blocks()):
+        ec = Q.edge_condition(F, body, du, u)
+        if not ec:
+            continue
+        for tgt, labs in ec[1].items():
+            if labs and all(fails(ec[0], lab) for lab in labs):
+                out.add((u, tgt))
+    return out
+
+
+@RS.rule('C19.R26', 'K-EFFECT', 'a RealSystem method passes ONE system call on to the kernel and reports its result, partial results included (a '
+         'short write, a short read): in the real module a system call of the wiring table - made directly, through a helper function '
+         'or through a closure - is repeated within one invocation only after that call FAILED (the EINTR retries of close / dup2 / '
+         'execve, the ERANGE retry of getcwd); no cycle of the method\'s control flow leads from a successful call back to the call, '
+         'so the caller, who owns the retry policy (Concurrent::write waits for the pipe and resumes after the bytes written), always '
+         'learns how much was done')
+def r26(cx):
+    F = cx.F
+    bodies, family, sites, dus = _real_syscall_graph(F)
+    cx.require(family, 'RealSystem implements no trait of yash_env::system any more')
+    nsites = nloops = 0
+    for k in sorted(sites):
+        b = bodies[k]
+        du = dus[k]
+        for blk, t, what in sites[k]:
+            nsites += 1
+            cx.fn(b.root)
+            cx.cellcount(1)
+            succ = b.succ(blk)
+            if not any(blk in b.reachable(s) for s in succ):
+                cx.site('%s: %s at %s is on no cycle of the function' % (_rshort(k), what, b.loc(t)))
+                continue
+            nloops += 1
+            rem = _failure_edges(F, b, du, t['dest']['l'])
+            again = [s for s in succ if (blk, s) not in rem and blk in b.reachable(s, removed_edges=rem)]
+            cx.site('%s: %s at %s is in a loop; repeated only after it failed (%d failure edge(s) cut every cycle): %s'
+                    % (_rshort(k), what, b.loc(t), len(rem), not again))
+            if again:
+                path = b.shortest_path(again[0], [blk], removed_edges=rem)
+                cx.violation(b.root, 'syscall-repeated-after-success:%s' % what.replace(' ', ':'),
+                             '%s performs %s again after a call that SUCCEEDED (a cycle leads from the call back to it without passing '
+                             'an edge that is taken only on failure): a partial result of the earlier call - the bytes a short write put '
+                             'into a non-blocking pipe - is lost when the repeated call fails (EAGAIN), and Concurrent::write, told that '
+                             'nothing was written, waits and sends the buffer again from its first byte: the reader sees the first 64 KiB '
+                             'repeated; the simulated system and the trait contract report the short count and leave the retry to the caller'
+                             % (_rshort(b.root), what), loc=b.loc(t), path=Q.render_path(b, [blk] + list(path or [])))
+    cx.floor(nsites, 45, 'system-call sites of the real module')
+    cx.floor(nloops, 1, 'reviewed retry loops (close / dup2 / execve EINTR, getcwd ERANGE)')
+
+
+RS.explanation += (' A RealSystem method repeats its system call only after the call failed - partial results always reach the caller, who owns '
+                   'the retry policy (R26).')
+
+
+# ----------------------------------------------------------------------------------------------------------------- C19-b
+RESOURCE = 'yash_env::system::resource::Resource'
+_NF_THROUGH = re.compile(r'^core::option::Option::<T>::\w+$|^core::result::Result::<T, E>::\w+$|Try>::branch$|'
+                         r'::(from|into|try_from|try_into|clone|cloned|copied|min|max|clamp|to_owned|deref|borrow|as_ref|unwrap_or_default)$|'
+                         r'^core::num::<impl [iu]\w+>::\w+$|^core::num::nonzero::NonZero::<T>::(get|new)$')
+_NF_COUNT = re.compile(r'::(len|count)$')
+_NF_ARITH = re.compile(r'^core::num::<impl [iu]\w+>::(checked|saturating|wrapping|overflowing|unchecked|strict)_(add|sub)$|'
+                       r'^core::num::<impl [iu]\w+>::abs_diff$')
+_NF_ORDER = re.compile(r'core::cmp::(PartialOrd(<[^>]*>)?>?::(lt|le|gt|ge|partial_cmp)|Ord>?::cmp)$')
+_NF_CMP_BINOPS = {'Lt', 'Le', 'Gt', 'Ge', 'Eq', 'Ne', 'Cmp'}
+_NF_ARITH_BINOPS = {'Add', 'Sub', 'AddWithOverflow', 'SubWithOverflow', 'AddUnchecked', 'SubUnchecked'}
+
+
+class _NofileFlow:
+    """Where the soft RLIMIT_NOFILE of a simulated process flows inside the simulated kernel, and what it is combined with.
+    A value is described by the set of its LEAVES: 'limit' (the result of a call given `Resource::NOFILE`), 'const', 'fd' (the
+    number of a descriptor: a place under an `Fd`, a value of type Fd), 'count:<callee>' (`len()` / `count()` of anything) and
+    'other:<what>'. Leaves cross function boundaries of the kernel: a parameter has the leaves of the arguments of the kernel's
+    calls, a closure parameter those of the other arguments of the call the closure is handed to, a capture those of the captured
+    value, a call of a kernel function (or a combinator given a closure) the leaves of the result."""
+
+    def __init__(self, F):
+        self.F = F
+        self.bodies = _kernel_bodies(F)
+        self.du = {}
+        self.param = {}          # (body key, local) / (closure key, 1, capture index) -> leaves
+        self.ret = {}            # body key -> leaves of the result
+        self.memo = {}
+
+    def defuse(self, k):
+        if k not in self.du:
+            self.du[k] = Q.DefUse(self.bodies[k])
+        return self.du[k]
+
+    def is_nofile(self, k, operand):
+        if Q.operand_place(operand) is None:
+            return str(operand.get('cdef') or operand.get('c') or '').endswith('Resource::NOFILE')
+        org = _ref_origin(self.defuse(k), operand)
+        return org['k'] == 'agg' and org['rv'].get('adt') == RESOURCE and org['rv'].get('variant') == 'NOFILE'
+
+    def is_source(self, k, t):
+        return any(self.is_nofile(k, a) for a in t['a'])
+
+    def closure_def(self, k, operand):
+        if Q.operand_place(operand) is None:
+            return None
+        org = _ref_origin(self.defuse(k), operand)
+        if org['k'] == 'agg' and org['rv'].get('ak') == 'closure' and org['rv'].get('def') in self.bodies:
+            return org['rv']['def']
+        return None
+
+    def _ty(self, k, l):
+        ty = str(self.bodies[k].locals[l].get('ty') or '').strip()
+        while ty.startswith('&'):
+            ty = ty[1:].strip()
+            ty = ty[4:].strip() if ty.startswith('mut ') else ty
+        return ty
+
+    def leaves(self, k, operand, seen=None):
+        if Q.operand_place(operand) is None:
+            return {'const'}
+        return self.place_leaves(k, Q.operand_place(operand), seen if seen is not None else set())
+
+    def place_leaves(self, k, p, seen):
+        proj = p.get('p') or []
+        if any(isinstance(e, dict) and e.get('adt') == FD_TY for e in proj):
+            return {'fd'}
+        if p['l'] == 1:
+            cap = [e.get('f') for e in proj if isinstance(e, dict) and e.get('adt') == k]
+            if cap:
+                return set(self.param.get((k, 1, str(cap[0]))) or {'other:captured variable'})
+        return self.local_leaves(k, p['l'], seen)
+
+    def call_leaves(self, k, t, seen):
+        name = _mir_callee(t)
+        decl = str(t['f'].get('decl') or '')
+        if self.is_source(k, t):
+            return {'limit'}
+        if _NF_COUNT.search(name) or _NF_COUNT.search(decl):
+            return {'count:' + re.sub(r'::<[^>]*>', '', _short(name))}
+        if name in self.bodies:
+            return set(self.ret.get(name) or {'other:result of %s' % _short(name)})
+        if _NF_THROUGH.search(name) or _NF_THROUGH.search(decl):
+            out = set()
+            for a in t['a']:
+                if isinstance(a, dict) and 'fn' in a:
+                    continue
+                c = self.closure_def(k, a)
+                out |= (self.ret.get(c) or set()) if c else self.leaves(k, a, seen)
+            return out
+        return {'other:result of %s' % re.sub(r'::<[^>]*>', '', _short(name))}
+
+    def local_leaves(self, k, l, seen):
+        if (k, l) in self.memo:
+            return self.memo[(k, l)]
+        if l in seen:
+            return set()
+        top = not seen
+        seen = seen | {l}
+        b = self.bodies[k]
+        out = set()
+        defs = self.defuse(k).defs.get(l, [])
+        if not defs:
+            out |= self.param.get((k, l)) or {'other:parameter `%s`' % b.local_name(l) if 1 <= l <= b.argc else 'other:undefined local'}
+        for blk, j, node in defs:
+            if j == 't':
+                out |= self.call_leaves(k, node, seen)
+                continue
+            if node['k'] != 'assign':
+                out.add('other:discriminant write')
+                continue
+            rv = node['rv']
+            if rv['k'] in ('use', 'cast', 'unop', 'binop', 'repeat'):
+                for o in Q.rvalue_operands(rv):
+                    out |= self.leaves(k, o, seen)
+            elif rv['k'] == 'agg' and rv.get('ak') != 'closure':
+                for o in rv.get('ops') or []:
+                    out |= self.leaves(k, o, seen)
+                if not rv.get('ops'):
+                    out.add('const')
+            elif rv['k'] == 'agg':
+                out.add('other:closure')
+            elif rv['k'] == 'ref':
+                out |= self.place_leaves(k, rv['pl'], seen)
+            else:
+                out.add('other:%s' % rv['k'])
+        if self._ty(k, l) == FD_TY and not any(x == 'limit' or x.startswith('count:') for x in out):
+            out = {'fd'}
+        if top:
+            self.memo[(k, l)] = out
+        return out
+
+    def solve(self):
+        """Fixpoint of the leaves of parameters, closure captures and results."""
+        for _ in range(10):
+            self.memo = {}
+            param, ret = {}, {}
+            for k, b in self.bodies.items():
+                ret[k] = set(self.local_leaves(k, 0, set()))
+                for blk, j, s in b.stmts():
+                    if s['k'] == 'assign' and s['rv']['k'] == 'agg' and s['rv'].get('ak') == 'closure' and s['rv'].get('def') in self.bodies:
+                        for i, o in enumerate(s['rv'].get('ops') or []):
+                            param.setdefault((s['rv']['def'], 1, str(i)), set()).update(self.leaves(k, o))
+                for blk, t in b.calls():
+                    name = _mir_callee(t)
+                    if name in self.bodies:
+                        for i, a in enumerate(t['a']):
+                            param.setdefault((name, i + 1), set()).update(self.leaves(k, a))
+                    clos = [c for c in (self.closure_def(k, a) for a in t['a']) if c]
+                    if clos:
+                        rest = set()
+                        for a in t['a']:
+                            if not self.closure_def(k, a) and not (isinstance(a, dict) and 'fn' in a):
+                                rest |= self.leaves(k, a)
+                        for c in clos:
+                            for l in range(2, self.bodies[c].argc + 1):
+                                param.setdefault((c, l), set()).update(rest)
+            if param == self.param and ret == self.ret:
+                break
+            self.param, self.ret = param, ret
+        self.memo = {}
+
+    def combinations(self, k):
+        """[(block, node, kind 'order'|'equality'|'arithmetic', [operands])] of a body: comparisons and sums / differences."""
+        b = self.bodies[k]
+        out = []
+        for blk, j, s in b.stmts():
+            if s['k'] == 'assign' and s['rv']['k'] == 'binop':
+                op = s['rv']['op']
+                if op in _NF_CMP_BINOPS:
+                    out.append((blk, s, 'equality' if op in ('Eq', 'Ne') else 'order', [s['rv']['a'], s['rv']['b']]))
+                elif op in _NF_ARITH_BINOPS:
+                    out.append((blk, s, 'arithmetic', [s['rv']['a'], s['rv']['b']]))
+        for blk, t in b.calls():
+            names = [_mir_callee(t), str(t['f'].get('decl') or '')]
+            if len(t['a']) != 2:
+                continue
+            if any(_NF_ORDER.search(n) for n in names):
+                out.append((blk, t, 'order', list(t['a'])))
+            elif any(_CMP_EQ.search(n) for n in names):
+                out.append((blk, t, 'equality', list(t['a'])))
+            elif any(_NF_ARITH.search(n) for n in names):
+                out.append((blk, t, 'arithmetic', list(t['a'])))
+        return out
+
+
+@RS.rule('C19.R27', 'K-TAINT', 'RLIMIT_NOFILE bounds the NUMBER a new descriptor may get, not how many descriptors are open (`exec 20>&1 .. '
+         '28>&1; ulimit -n 12; pwd >out` works on a real kernel: descriptors opened above a limit lowered later stay open and the free '
+         'numbers below it stay usable): in the simulated kernel the soft NOFILE limit - wherever it is read with Resource::NOFILE, '
+         'returned by a helper or handed to one - is compared / combined only with descriptor numbers (`fd.0`, an Fd) and constants '
+         '(INFINITY), never with a count (`len()`, `count()`) of the descriptor table; unit rule of the family C12.R7 / C13.R7')
+def r27(cx):
+    F = cx.F
+    cx.require(RESOURCE in F.adts and any(v['name'] == 'NOFILE' for v in F.adts[RESOURCE]['variants']), 'Resource::NOFILE not found')
+    flow = _NofileFlow(F)
+    sources = [(k, blk, t) for k, b in sorted(flow.bodies.items()) for blk, t in b.calls() if flow.is_source(k, t)]
+    cx.require(sources, 'the simulated kernel no longer reads a limit with Resource::NOFILE (anchor moved: where is RLIMIT_NOFILE enforced?)')
+    for k, blk, t in sources:
+        cx.site('%s: the NOFILE limit is read by %s at %s' % (_short(k), _short(_mir_callee(t)), flow.bodies[k].loc(t)))
+    flow.solve()
+    for k in sorted(flow.ret):
+        if 'limit' in flow.ret[k]:
+            cx.site('%s returns a value computed from the NOFILE limit' % _short(k))
+    for key in sorted(flow.param, key=str):
+        if 'limit' in flow.param[key]:
+            cx.site('%s receives the NOFILE limit in %s' % (_short(key[0]), 'capture %s' % key[2] if len(key) == 3 else
+                                                            '`%s`' % flow.bodies[key[0]].local_name(key[1])))
+    nfd = 0
+    for k in sorted(flow.bodies):
+        b = flow.bodies[k]
+        for blk, node, kind, ops in flow.combinations(k):
+            lv = [flow.leaves(k, o) for o in ops]
+            allv = set().union(*lv)
+            if 'limit' not in allv:
+                continue
+            cx.fn(b.root)
+            cx.cellcount(1)
+            counts = sorted(x[6:] for x in allv if x.startswith('count:'))
+            others = sorted(x[6:] for x in allv if x.startswith('other:'))
+            with_fd = 'fd' in allv
+            cx.site('%s: %s of the NOFILE limit at %s with %s' % (_short(k), kind, b.loc(node), ', '.join(sorted(
+                ('a descriptor number' if x == 'fd' else 'a constant' if x == 'const' else x) for x in allv if x != 'limit')) or 'itself'))
+            if counts:
+                cx.violation(b.root, 'nofile-limit-against-count:%s' % '+'.join(counts),
+                             '%s compares / combines the soft RLIMIT_NOFILE with a count (%s): the limit bounds the number of a new '
+                             'descriptor, not how many are open. After `exec 20>&1 21>&1 .. 28>&1; ulimit -n 12` the table holds 12 '
+                             'descriptors although 3..11 are free: a real kernel opens `pwd >out` on descriptor 3, the simulated one answers '
+                             'EMFILE ("Too many open files")' % (_short(b.root), ', '.join(counts)), loc=b.loc(node))
+                continue
+            cx.require(not others, '%s: the NOFILE limit meets a value this rule cannot classify as a descriptor number or a count at %s (%s)'
+                       % (_short(k), b.loc(node), '; '.join(others)))
+            if with_fd and kind == 'order':
+                nfd += 1
+    cx.floor(nfd, 1, 'order comparisons of a descriptor number with the NOFILE limit (set_fd: `fd.0 < limit`)')
+
+
+RS.explanation += (' In the simulated kernel the NOFILE limit is compared with descriptor numbers only, never with the number of open '
+                   'descriptors (R27).')
